@@ -106,7 +106,7 @@ P("C13",
        "through the scaling constructor; optimum from LEMON NetworkSimplex<long long>. non-trivial = the "
        "capacity-blind cheapest assignment is infeasible (optimum > sum demand*min cost), distinct = hash of "
        "the instance. Exhaustive part: all instances with 1..3 sinks x 1..3 sources, demands 1..2, capacities "
-       "1..3 (total capacity >= total demand), costs 0..2, against brute force over all plans. Half of the cases solve on an object with a history: an earlier solve(), an initial setAssignment() of every source to one sink, or both.",
+       "1..3 (total capacity >= total demand), costs 0..2, against brute force over all plans. Half of the cases solve on an object with a history: an earlier solve(), an initial setAssignment() of every source to one sink, or both. A quarter of the cases use huge, nearly uniform capacities and demands (remainders of 1..3 units next to quantities of 1e6..1e9). Plans built through the integer constructor are judged against the caller's costs; for float costs the stored representation must keep every per-source cost difference between sinks.",
   assumptions=["integer costs satisfy |c| <= INT_MAX/(4*nbSinks), the bound the float constructor's scaling establishes",
                "total demand <= total capacity when solve() is called (after increaseCapacity() where needed)"])
 
@@ -120,7 +120,7 @@ P("C14",
        "to 1e6, zero supplies and demands over-weighted, total supply <= total demand directly (exact or with "
        "slack) or through balanceDemand(); optimum from LEMON NetworkSimplex. non-trivial = the plan splits a "
        "source or a zero supply/demand is present; distinct = hash of the instance. Exhaustive part: 1..3 sources "
-       "x 1..3 sinks, positions 0..3, supplies and demands 0..2, against brute force over all plans. Half of the cases vary the call sequence: assign() before solve(), both called twice (answers must repeat), balanceDemand() twice.",
+       "x 1..3 sinks, positions 0..3, supplies and demands 0..2, against brute force over all plans. Half of the cases vary the call sequence: assign() before solve(), both called twice (answers must repeat), balanceDemand() twice. A quarter of the cases scale all amounts so that the totals leave 32 bits; a sixth collapse the sinks onto 1..3 positions and extend them to 17..30.",
   assumptions=["at least one sink; the clause 'a sink of positive demand' is only required when some sink has positive demand"])
 
 
@@ -190,7 +190,7 @@ P("C01",
        "{obstruction intersecting a row, split row, multi-row cell, utilisation >= 80%, a start position outside the area}; "
        "distinct = hash of the circuit. Exhaustive part (small scope): four tiny row configurations (the fourth: two levels of two abutting segments) x {no obstruction, "
        "1x1 obstruction} x every combination of 1..2 (3 thorough, from a reduced option set) movable cells of 4 sizes x 3 "
-       "polarities x 35 target positions x 2 ordering widths, each enumerated once. A third of the cases are judged a second time on a Circuit object that was legalized before with its fixed cells elsewhere and then set to the same contents through setCellX/Y/Orientation or setSolution; 1 case in 24 adds a large companion instance (up to 300 movable cells, 24 row levels).",
+       "polarities x 35 target positions x 2 ordering widths, each enumerated once. A third of the cases are judged a second time on a Circuit object that was legalized before with its fixed cells elsewhere and then set to the same contents through setCellX/Y/Orientation or setSolution; 1 case in 24 adds a large companion instance (up to 300 movable cells, 24 row levels). Row segments of one level may abut (gap 0); the enumerator has a fourth configuration with two levels of two abutting segments.",
   assumptions=["rows are uniform-height and pairwise disjoint by construction; movable cells have placed height a positive multiple of the row height"])
 
 
@@ -217,7 +217,7 @@ P("C04",
        "after legalize, inside every Detailed callback of placeDetailed and after it; cells without polarity must keep "
        "their orientation. non-trivial = a polarised cell ends on another row than the one closest to its start, or "
        "detailed placement moved a polarised cell to another row; distinct = hash of the circuit. Exhaustive part: "
-       "cellOrientationInRow / oppositeRowOrientation over 5 polarities x 10 enum values. Object histories: in a quarter of the cases every circuit of the case is not built fresh but reached on an object that was built with its fixed cells elsewhere, queried (computeRows, hpwl) and legalized, and then brought to the case's contents through setCellX/Y/Orientation or setSolution (same contents, other history). Rows are handed to the circuit in generated, reversed, rotated or shuffled order; 1 case in 32 adds a large companion instance (up to 150 movable cells).",
+       "cellOrientationInRow / oppositeRowOrientation over 5 polarities x 10 enum values. Object histories: in a quarter of the cases every circuit of the case is not built fresh but reached on an object that was built with its fixed cells elsewhere, queried (computeRows, hpwl) and legalized, and then brought to the case's contents through setCellX/Y/Orientation or setSolution (same contents, other history). Rows are handed to the circuit in generated, reversed, rotated or shuffled order; 1 case in 32 adds a large companion instance (up to 150 movable cells). Reordering over several rows is switched on in a third of the cases.",
   assumptions=["segments that share a y share an orientation (by construction, as Circuit::report() requires)"])
 
 
@@ -233,7 +233,7 @@ P("C02",
        "judged after each. non-trivial = (a) >= 2 callbacks and some cell moved, (b) value() changed; distinct = hash of "
        "circuit (and pass count). Layer (c), exhaustive: every sequence of swap/insert operations up to depth 3 (4) from "
        "every legal initial placement of <= 3 (4) cells of width 1..2 (3) in three row configurations: canSwap/canInsert "
-       "true => the operation succeeds and an independent structural predicate holds, false => it throws and changes nothing. 1 case in 32 adds a large companion instance (up to 150 movable cells) through layer (a); a third of the cases are judged again through layer (a) with the rows handed over in another order (reversed / rotated / shuffled) on a Circuit object that was placed before with its fixed cells elsewhere and then set to the same contents through its setters.",
+       "true => the operation succeeds and an independent structural predicate holds, false => it throws and changes nothing. 1 case in 32 adds a large companion instance (up to 150 movable cells) through layer (a); a third of the cases are judged again through layer (a) with the rows handed over in another order (reversed / rotated / shuffled) on a Circuit object that was placed before with its fixed cells elsewhere and then set to the same contents through its setters. Half of the movable cells carry a polarity and 30% of those a polarity that does not match their row count (NW/SE single-row cells). Degenerate companions: rows completely covered by an obstruction and multi-row cells (1 case in 16), rows cut into 17..30 segments by tap cells (1 in 16).",
   assumptions=["runShifts is driven with maxNbCells >= 2 and runReordering with nbRows >= 1, the guards of their only caller",
                "insert(c,row,pred) is driven with pred = -1 or a cell of that row"])
 
@@ -246,7 +246,7 @@ P("C05",
        "be non-increasing and end at or below the value after legalize alone on an identical copy. Layer (b): "
        "DetailedPlacer on the legalized circuit driven by 1..12 generated passes: value() never increases, equals hpwl() "
        "of the exported placement while no orientation changed, and equals hpwl() after construction. non-trivial = the "
-       "wirelength strictly decreased at least once and a net of degree >= 3 exists; distinct = hash of the circuit. 1 case in 32 adds a large companion instance (up to 150 movable cells) through layer (a); a third of the cases are judged again through layer (a) with the rows handed over in another order (reversed / rotated / shuffled) on a Circuit object that was placed before with its fixed cells elsewhere and then set to the same contents through its setters.",
+       "wirelength strictly decreased at least once and a net of degree >= 3 exists; distinct = hash of the circuit. 1 case in 32 adds a large companion instance (up to 150 movable cells) through layer (a); a third of the cases are judged again through layer (a) with the rows handed over in another order (reversed / rotated / shuffled) on a Circuit object that was placed before with its fixed cells elsewhere and then set to the same contents through its setters. A fifth of the cases give some nets weight 0 or -1; one case in eight is also run translated by 2^25 in x and/or y (coordinates beyond 2^24).",
   assumptions=["Circuit::hpwl() is the measure (C09 pins it to geometry)"])
 
 
@@ -264,7 +264,7 @@ P("C06",
        "coordinate satisfies |v| <= 2^30 and float-cast-overflow stays silent; the returned coordinates equal "
        "(1-w) LB + w UB of the integer placements seen at the last LowerBound / UpperBound callbacks within "
        "0.5(|1-w|+|w|)+0.5+4ulp; no exception. non-trivial = >= 3 upper-bound steps, LB and UB differ by more than 4 units "
-       "for some cell, and a fixed cell exists; distinct = hash of the circuit. Object histories: in a quarter of the cases every circuit of the case is not built fresh but reached on an object that was built with its fixed cells elsewhere, queried (computeRows, hpwl) and legalized, and then brought to the case's contents through setCellX/Y/Orientation or setSolution (same contents, other history).",
+       "for some cell, and a fixed cell exists; distinct = hash of the circuit. Object histories: in a quarter of the cases every circuit of the case is not built fresh but reached on an object that was built with its fixed cells elsewhere, queried (computeRows, hpwl) and legalized, and then brought to the case's contents through setCellX/Y/Orientation or setSolution (same contents, other history). A quarter of the cases clear the obstruction flag on a third of the movable cells; 1 case in 48 adds a large companion instance (up to 200 movable cells).",
   assumptions=["zero-area movable cells are in no density bin by design (C16) and are exempt from the centre-inside clause",
                "cases where the side margin removes every free segment are discarded (the degenerate case the property excludes)"])
 
@@ -278,7 +278,7 @@ P("C03",
        "generated index; 1 in 12 cases with a rejected parameter set. Oracle: a snapshot of every public getter is equal "
        "before and after each call, and inside every callback, for everything except x/y/orientation of movable cells "
        "(after placeGlobal all orientations too), whether the call returned or threw. non-trivial = a fixed cell carries a "
-       "pin and a movable cell moved, or a call ended in an exception; distinct = hash of circuit, flow and callback mode. Object histories: in a quarter of the cases every circuit of the case is not built fresh but reached on an object that was built with its fixed cells elsewhere, queried (computeRows, hpwl) and legalized, and then brought to the case's contents through setCellX/Y/Orientation or setSolution (same contents, other history).",
+       "pin and a movable cell moved, or a call ended in an exception; distinct = hash of circuit, flow and callback mode. Object histories: in a quarter of the cases every circuit of the case is not built fresh but reached on an object that was built with its fixed cells elsewhere, queried (computeRows, hpwl) and legalized, and then brought to the case's contents through setCellX/Y/Orientation or setSolution (same contents, other history). 1 global-placement case in 16 is the shape on which the solver is known to return non-finite coordinates (unit rows far from the origin, a net without a fixed pin); it is judged in a forked child like the rest of that class.",
   assumptions=["the class of known finding c06-unanchored-far-from-origin is excluded from the flows that run global placement"])
 
 
@@ -295,7 +295,7 @@ P("C10",
        "Circuit::check() passes and a further legalize behaves as on a fresh circuit with the same placement; after a failed "
        "legalization or rejected parameters the placement is bit-identical. non-trivial = K >= 3, or an infeasible "
        "legalization with >= 3 cells; distinct = hash of circuit and stage. class_histogram['fault-points'] is the number of "
-       "injected faults. Object histories: in a quarter of the cases every circuit of the case is not built fresh but reached on an object that was built with its fixed cells elsewhere, queried (computeRows, hpwl) and legalized, and then brought to the case's contents through setCellX/Y/Orientation or setSolution (same contents, other history).",
+       "injected faults. Object histories: in a quarter of the cases every circuit of the case is not built fresh but reached on an object that was built with its fixed cells elsewhere, queried (computeRows, hpwl) and legalized, and then brought to the case's contents through setCellX/Y/Orientation or setSolution (same contents, other history). One case in eight of the legalize / placeDetailed stages contains a movable cell lower than a row (the legalization then fails and must leave the placement alone).",
   assumptions=["only the setters named by the property's mechanism are required to refuse"])
 
 
@@ -346,7 +346,7 @@ P("C18",
        "regions (congestion 0..3): 1 for fixed cells and cells meeting no region with congestion > 1, else the max of "
        "(c-1)*penaltyFactor+fixedPenalty+1 (relative 1e-5). non-trivial = >= 2 movable cells of different heights with an "
        "obstruction or a margin removing >= 5% of the area and an actual expansion; for computeCellExpansion a cell meeting "
-       ">= 2 congested regions; distinct = hash of circuit and arguments. Each case continues as a history on the same object: up to two further steps (fixed cells moved or turned through setCellX/Y, setSolution or setCellOrientation; then one of the three calls again, the side margin reused with probability 2/3), every clause judged against the current contents.",
+       ">= 2 congested regions; distinct = hash of circuit and arguments. Each case continues as a history on the same object: up to two further steps (fixed cells moved or turned through setCellX/Y, setSolution or setCellOrientation; then one of the three calls again, the side margin reused with probability 2/3), every clause judged against the current contents. The congestion map repeats 0..2 of its rectangles with other values.",
   assumptions=["zero-area movable cells are not judged by the computeCellExpansion clause ('intersects' is ambiguous for them)"])
 
 
@@ -362,7 +362,7 @@ P("C08",
        "other solve is held until the requested one has exited; jitter sleeps 0..3 ms on entry and exit), and a run pinned to "
        "one CPU. The tsan build of the same property runs the schedules under ThreadSanitizer with halt_on_error. non-trivial "
        "= global placement with >= 2 hooked solve pairs, >= 3 lower-bound steps and noise > 0; for the other stages a cell "
-       "moved; distinct = hash of circuit and stage. In half of the single-thread cases the stage is also run on a Circuit object that was placed before and then brought to a variant of the case (fixed cells moved) through its setters, and compared with the same contents built fresh.",
+       "moved; distinct = hash of circuit and stage. In half of the single-thread cases the stage is also run on a Circuit object that was placed before and then brought to a variant of the case (fixed cells moved) through its setters, and compared with the same contents built fresh. 30% of the global-placement cases may contain components without a fixed pin (cells on no net); only the class of the recorded finding (such a component and an area more than ~1000 average cell lengths from the origin) is left out.",
   assumptions=["the hook only delays threads, it never kills them; a wait that exceeds 20 s gives up and is counted",
                "xtopo_ is declared before ytopo_ in GlobalPlacer, so the lower address is the x model",
                "ThreadSanitizer judges the executions actually produced; an interleaving needing a pre-emption inside Eigen's CG loop is out of reach"])
@@ -383,7 +383,7 @@ P("C07",
        "float-cast-overflow, null), a non-std exception or a case that does not end within 60 s alone (3/3) is a violation. "
        "Engines: libFuzzer on the tape bytes (structure-aware through the decoder) plus rapidcheck workers, on the `san` "
        "build (assertions on) and the `sannd` build (NDEBUG). non-trivial = the case reached >= 2 stages or threw, at decade "
-       "or nanometre scale; distinct = hash of circuit, flow and shape. Object histories: in a quarter of the cases every circuit of the case is not built fresh but reached on an object that was built with its fixed cells elsewhere, queried (computeRows, hpwl) and legalized, and then brought to the case's contents through setCellX/Y/Orientation or setSolution (same contents, other history).",
+       "or nanometre scale; distinct = hash of circuit, flow and shape. Object histories: in a quarter of the cases every circuit of the case is not built fresh but reached on an object that was built with its fixed cells elsewhere, queried (computeRows, hpwl) and legalized, and then brought to the case's contents through setCellX/Y/Orientation or setSolution (same contents, other history). Companions: 1 case in 32 a large instance (up to 250 movable cells), 1 in 32 rows completely covered by an obstruction and multi-row cells, 1 in 32 rows cut into 17..30 segments by tap cells.",
   assumptions=["resource bounds of the harness: no positive cell height below half a row when global placement runs (bounds the bin count), maxNbSteps, reordering window <= 5 cells",
                "the class of known finding c06-unanchored-far-from-origin is excluded by construction and counted"])
 
